@@ -70,7 +70,7 @@ def run_c03(rep):
     n, ops = sizes(rep, (320, 16), (5000, 60))
     families.play_family(rep, n, ops, features=dict(top_jumps=0.4, block_jumps=0.4, hooks=0.4, hook_early=0.5, join=0.35, inputs=0.6, conds=0.8, loops=0.5, render=0.5, block_counters=0.8),
                          weights=dict(read=45, choose=35, goto=8, save=6), oracle_names=["oracle_c03", "oracle_c10"],
-                         known_classes=known_classes("C03") | known_classes("C10"), label="c03")
+                         known_classes=known_classes("C03") | known_classes("C10") | known_classes("C08"), label="c03")
     # (the commands in the block of a `-> @join` choice run exactly once too: each block bumps its own counter — C10's oracle)
 
 
@@ -666,7 +666,7 @@ PROPS = {
     ),
     "C17": dict(
         theorems=["Bardic.Parser." + t for t in ["strip_comment_suffix", "strip_keeps_escaped", "strip_keeps_floordiv_assign",
-                                                  "strip_noslash", "dedent_uniform", "dedent_comment_head", "contentLine_comment_invisible"]],
+                                                  "strip_noslash", "dedent_uniform", "dedent_comment_head", "directive_comment_invisible", "prepass_comment_invisible", "parseLines_comment_invisible", "contentLine_comment_invisible"]],
         run=run_c17,
         rule="each generated story (parameters, @if/@for nesting, @py blocks, hooks, @join blocks, render/input directives, "
              "block and conditional choices, jumps) is printed once plainly and in 6 (thorough 12) random style vectors over "
@@ -679,9 +679,15 @@ PROPS = {
                    "not //=), strip_keeps_escaped, strip_keeps_floordiv_assign, strip_noslash (a line without '/' is returned "
                    "unchanged) and dedent_uniform (adding the same blank prefix to every line of a body does not change the "
                    "dedented body) for all strings; contentLine_comment_invisible (the content tokenizer gives the same tokens "
-                   "for a line with and without a trailing // comment); that each of the dozen line classifiers applies the stripper and the "
-                   "legacy/@ heads agree is decided by the style-vector oracle on the real compiler (partial: the line "
-                   "classifiers themselves are not modelled)",
+                   "for a line with and without a trailing // comment); dedent_comment_head (a # comment line above a body does not "
+                   "set its indentation base); on the WHOLE text-level parser model: parseLines_comment_invisible — the story or "
+                   "diagnostic parse() answers is the same with and without a trailing // comment on a directive line (@endif, "
+                   "@endfor, @endpy, @py, @else, @join, @hook, @unhook, @start, ->, >>), wherever the line stands, whatever its "
+                   "indentation and whatever the comment says, as long as the pre-pass is in the state in which the line is "
+                   "commentable (outside Python blocks; inside one, the block's closer) — prepass_comment_invisible by induction over "
+                   "the lines before it, directive_comment_invisible for the line itself; the remaining style dimensions (legacy/@ "
+                   "heads, comments on content / choice / header lines through the classifier, body indentation through the block "
+                   "extractors) are decided by the style-vector oracle on the real compiler and by the text correspondence",
     ),
     "C11": dict(
         theorems=["Bardic.Parser." + t for t in ["extractPassageParams_ok", "extractTargetAndArgs_ok", "parsePassageParams_ok",
